@@ -217,4 +217,383 @@ theorem C32_denied_stores_nothing_msgpack (c : Cfg) (hdr : Name) (top : Top)
 
 example : (mpHandle wCfg wDb (.map (.col (.s [109]) [kTime]))).status = .denied := by decide
 
+/-! ## line protocol -/
+
+theorem lpCore_keys (c : Cfg) (db : Name) (fl : Bool) (recs : List (Name × List Name)) (k : Key)
+    (hk : k ∈ (lpCore c db fl recs).keys) :
+    k.db = db ∧ (lpCore c db fl recs).db = db ∧ validMeas k.m = true ∧
+      (c.active = true → k.m ∈ (lpCore c db fl recs).checked ∧ c.allow db k.m = true) := by
+  unfold lpCore at hk ⊢
+  generalize dedupe (recs.map (·.1)) = ms at hk ⊢
+  by_cases h0 : recs = []
+  · simp [h0, reject] at hk
+  · by_cases h1 : (c.active && !ms.all (c.allow db)) = true
+    · simp [h0, h1] at hk
+    · by_cases h2 : ms.all validMeas = true
+      · simp only [h0, h1, h2, Bool.not_true, Bool.false_eq_true, if_false, List.mem_map] at hk ⊢
+        obtain ⟨m, hm, rfl⟩ := hk
+        refine ⟨rfl, (by first | rfl | trivial), all_of_mem h2 hm, fun hact => ?_⟩
+        simp only [hact, Bool.true_and, Bool.not_eq_true', Bool.not_eq_false] at h1
+        simp only [hact, if_true]
+        exact ⟨hm, all_of_mem (by simpa using h1) hm⟩
+      · simp [h0, h1, h2] at hk
+
+/-- C32_full for line protocol — every endpoint (/write, /api/v2/write, /api/v1/write/line-protocol) and the LP
+import: FULL strength, no carve-out. -/
+theorem C32_full_lineprotocol (c : Cfg) (ep : LpEp) (hdr qdb qb qm : Name) (pts : List Point) (k : Key)
+    (hact : c.active = true) (hk : k ∈ (lpHandle c ep hdr qdb qb qm pts).keys) :
+    Lands c (lpHandle c ep hdr qdb qb qm pts) k ∧ lpDb ep hdr qdb qb = some k.db ∧
+      validDB k.db = true ∧ validMeas k.m = true := by
+  unfold lpHandle at hk ⊢
+  cases hdb : lpDb ep hdr qdb qb with
+  | none => simp [hdb, reject] at hk
+  | some db =>
+    simp only [hdb] at hk ⊢
+    by_cases h1 : validDB db = true
+    · by_cases h2 : (decide (ep = LpEp.imp) && decide (qm ≠ []) && !validMeas qm) = true
+      · simp only [h1, h2, Bool.not_true, Bool.false_eq_true, if_true, if_false] at hk
+        simp [reject] at hk
+      · by_cases h3 : parsePoints pts = []
+        · simp only [h1, h2, h3, Bool.not_true, Bool.false_eq_true, if_true, if_false] at hk
+          simp [reject] at hk
+        · simp only [h1, h2, h3, Bool.not_true, Bool.false_eq_true, if_false] at hk ⊢
+          obtain ⟨hkd, hod, hvm, hchk⟩ := lpCore_keys _ _ _ _ k hk
+          obtain ⟨hmem, hal⟩ := hchk hact
+          exact ⟨⟨hkd.trans hod.symm, hmem, hkd ▸ hal⟩, by rw [hkd], hkd ▸ h1, hvm⟩
+    · simp [h1, reject] at hk
+
+example : ∃ c ep hdr qdb qb qm pts k, c.active = true ∧ k ∈ (lpHandle c ep hdr qdb qb qm pts).keys :=
+  ⟨wCfg, .v1, [], wDb, [], [], [.p wCpu [kUMeas, kDb] [[118], kM]], ⟨wDb, wCpu⟩, by decide, by decide⟩
+
+theorem C32_denied_stores_nothing_lineprotocol (c : Cfg) (ep : LpEp) (hdr qdb qb qm : Name) (pts : List Point)
+    (h : (lpHandle c ep hdr qdb qb qm pts).status ≠ .ok) :
+    (lpHandle c ep hdr qdb qb qm pts).keys = [] ∧ (lpHandle c ep hdr qdb qb qm pts).wal = [] := by
+  unfold lpHandle at h ⊢
+  cases hdb : lpDb ep hdr qdb qb with
+  | none => simp [reject]
+  | some db =>
+    simp only [hdb] at h ⊢
+    by_cases h1 : validDB db = true
+    · by_cases h2 : (decide (ep = LpEp.imp) && decide (qm ≠ []) && !validMeas qm) = true
+      · simp only [h1, h2, Bool.not_true, Bool.false_eq_true, if_true, if_false]
+        simp [reject]
+      · by_cases h3 : parsePoints pts = []
+        · simp only [h1, h2, h3, Bool.not_true, Bool.false_eq_true, if_true, if_false]
+          simp [reject]
+        · simp only [h1, h2, h3, Bool.not_true, Bool.false_eq_true, if_false] at h ⊢
+          unfold lpCore at h ⊢
+          generalize (if (decide (ep = LpEp.imp) && decide (qm ≠ [])) = true then _ else _) = recs at h ⊢
+          by_cases g0 : recs = []
+          · simp [g0, reject]
+          · by_cases g1 : (c.active && !(dedupe (recs.map (·.1))).all (c.allow db)) = true
+            · simp [g0, g1]
+            · by_cases g2 : (dedupe (recs.map (·.1))).all validMeas = true
+              · simp [g0, g1, g2] at h
+              · simp [g0, g1, g2]
+    · simp [h1, reject]
+/-! ## TLE write / TLE import -/
+theorem C32_full_tle (c : Cfg) (ep : OneEp) (hep : ep = .tle ∨ ep = .itle) (hdr qdb mp : Name) (fok : Bool)
+    (cols : List Name) (k : Key) (hact : c.active = true) (hk : k ∈ (oneHandle c ep hdr qdb mp fok cols).keys) :
+    Lands c (oneHandle c ep hdr qdb mp fok cols) k ∧ oneDb ep hdr qdb = some k.db ∧
+      validDB k.db = true ∧ validMeas k.m = true ∧ k.m = (if mp = [] then satelliteTle else mp) := by
+  have hne : (decide (ep = OneEp.csv) || decide (ep = OneEp.parquet)) = false := by
+    rcases hep with rfl | rfl <;> decide
+  unfold oneHandle at hk ⊢
+  simp only [hne, Bool.false_eq_true, if_false] at hk ⊢
+  cases hdb : oneDb ep hdr qdb with
+  | none => simp [hdb, reject] at hk
+  | some db =>
+    simp only [hdb] at hk ⊢
+    generalize (if mp = [] then satelliteTle else mp) = m at hk ⊢
+    by_cases h1 : validDB db = true
+    · by_cases h2 : validMeas m = true
+      · by_cases h3 : fok = true
+        · by_cases h4 : c.allow db m = true
+          · simp only [h1, h2, h3, h4, hact, Bool.not_true, Bool.false_eq_true, if_false, Bool.and_false,
+              List.mem_singleton, if_true] at hk ⊢
+            subst hk
+            exact ⟨⟨rfl, by simp, h4⟩, rfl, h1, h2, rfl⟩
+          · simp [h1, h2, h3, h4, hact] at hk
+        · simp [h1, h2, h3, reject] at hk
+      · simp [h1, h2, reject] at hk
+    · simp [h1, reject] at hk
+
+example : (oneHandle wCfg .tle wDb [] wCpu true []).keys = [⟨wDb, wCpu⟩] := by decide
+
+/-! ## CSV / Parquet import -/
+theorem importPreamble_ok (c : Cfg) (hdr qdb mp : Name) (h : (importPreamble c hdr qdb mp).status = .ok) :
+    (importPreamble c hdr qdb mp).db = (if hdr = [] then qdb else hdr) ∧ (importPreamble c hdr qdb mp).m = mp ∧
+      validDB (if hdr = [] then qdb else hdr) = true ∧ validMeas mp = true ∧
+      (c.active = true → (importPreamble c hdr qdb mp).checked = [mp] ∧ c.allow (if hdr = [] then qdb else hdr) mp = true) := by
+  unfold importPreamble at h ⊢
+  generalize (if hdr = [] then qdb else hdr) = d at h ⊢
+  by_cases h0 : d = []
+  · simp [h0] at h
+  · by_cases h1 : validDB d = true
+    · by_cases h2 : mp = []
+      · simp [h0, h1, h2] at h
+      · by_cases h3 : validMeas mp = true
+        · by_cases h4 : (c.active && !c.allow d mp) = true
+          · simp [h0, h1, h2, h3, h4] at h
+          · simp only [h0, h1, h2, h3, h4, Bool.not_true, Bool.false_eq_true, if_false]
+            refine ⟨(by first | rfl | trivial), (by first | rfl | trivial), (by first | rfl | trivial), (by first | rfl | trivial), fun hact => ?_⟩
+            simp only [hact, Bool.true_and, Bool.not_eq_true', Bool.not_eq_false] at h4
+            simp [hact, h4]
+        · simp [h0, h1, h2, h3] at h
+    · simp [h0, h1] at h
+
+/-- FULL statement for CSV/Parquet import (FALSE on the current code, see the witness):
+`∀ …, c.active → k ∈ (importOne …).keys → Lands c (importOne …) k`. -/
+theorem C32_full_import_partial (c : Cfg) (hdr qdb mp : Name) (fok : Bool) (cols : List Name) (k : Key)
+    (hact : c.active = true) (hk : k ∈ (importOne c hdr qdb mp fok cols).keys)
+    (carve : (importPreamble c hdr qdb mp).status = .ok) :
+    Lands c (importOne c hdr qdb mp fok cols) k ∧ validDB k.db = true ∧ validMeas k.m = true := by
+  obtain ⟨hd, hm, hv, hvm, hchk⟩ := importPreamble_ok c hdr qdb mp carve
+  obtain ⟨hc, hal⟩ := hchk hact
+  unfold importOne at hk ⊢
+  by_cases hf : fok = true
+  · simp only [hf, Bool.not_true, Bool.false_eq_true, if_false, List.mem_singleton] at hk ⊢
+    subst hk
+    simp only [hd, hm, hc]
+    exact ⟨⟨rfl, by simp, hal⟩, hv, hvm⟩
+  · simp [hf] at hk
+
+/-- WITNESS (confirmed on the real handlers; monitors `denied-request-stored-rows:import-csv|import-parquet`,
+`row-stored-outside-request-database:import-…`, `row-stored-under-unchecked-measurement:import-…:empty-measurement`):
+the caller may write db/cpu only; a CSV import aimed at database "xx" is DENIED by the preamble (HTTP 403 stays
+on the response) and nevertheless stores the file's rows — under database "" and measurement "". -/
+theorem C32_full_import_witness :
+    let o := importOne wCfg [120, 120] [] wCpu true [[118]]
+    o.status = .denied ∧ o.keys = [⟨[], []⟩] ∧ ¬ Lands wCfg o ⟨[], []⟩ ∧
+      flushPath (bufferKey ⟨[], []⟩) [80] [83] = some [47, 47, 80, 47, 95, 83] := by
+  refine ⟨by decide, by decide, ?_, by decide⟩
+  intro h
+  exact absurd h.1 (by decide)
+
+/-- … and the same after a 400 (no database named at all) -/
+theorem C32_full_import_witness_missing_db :
+    (importOne wCfg [] [] wCpu true [[118]]).status = .bad ∧ (importOne wCfg [] [] wCpu true [[118]]).keys = [⟨[], []⟩] := by
+  decide
+
+/-- denial stores nothing — TRUE for TLE, FALSE for CSV/Parquet (witness above) -/
+theorem C32_denied_stores_nothing_tle (c : Cfg) (ep : OneEp) (hep : ep = .tle ∨ ep = .itle) (hdr qdb mp : Name)
+    (fok : Bool) (cols : List Name) (h : (oneHandle c ep hdr qdb mp fok cols).status ≠ .ok) :
+    (oneHandle c ep hdr qdb mp fok cols).keys = [] ∧ (oneHandle c ep hdr qdb mp fok cols).wal = [] := by
+  have hne : (decide (ep = OneEp.csv) || decide (ep = OneEp.parquet)) = false := by
+    rcases hep with rfl | rfl <;> decide
+  unfold oneHandle at h ⊢
+  simp only [hne, Bool.false_eq_true, if_false] at h ⊢
+  cases hdb : oneDb ep hdr qdb with
+  | none => simp [reject]
+  | some db =>
+    simp only [hdb] at h ⊢
+    generalize (if mp = [] then satelliteTle else mp) = m at h ⊢
+    by_cases h1 : validDB db = true
+    · by_cases h2 : validMeas m = true
+      · by_cases h3 : fok = true
+        · by_cases h4 : (c.active && !c.allow db m) = true
+          · simp [h1, h2, h3, h4]
+          · simp [h1, h2, h3, h4] at h
+        · simp [h1, h2, h3, reject]
+      · simp [h1, h2, reject]
+    · simp [h1, reject]
+
+/-- FULL statement (FALSE, witness `C32_full_import_witness`): a CSV/Parquet import whose status is not ok stores
+nothing.  What remains true: only an unparsable file stops the import. -/
+theorem C32_denied_stores_nothing_import_partial (c : Cfg) (hdr qdb mp : Name) (fok : Bool) (cols : List Name)
+    (carve : fok = false) :
+    (importOne c hdr qdb mp fok cols).keys = [] ∧ (importOne c hdr qdb mp fok cols).wal = [] := by
+  subst carve
+  simp [importOne]
+
+theorem C32_denied_stores_nothing_import_witness :
+    (importOne wCfg [120, 120] [] wCpu true [[118]]).status = .denied ∧
+      (importOne wCfg [120, 120] [] wCpu true [[118]]).keys ≠ [] := by
+  decide
+/-! ## payload inertness (live path) -/
+
+/-- the routing-relevant projection of an outcome -/
+structure Route where
+  status : Status
+  db : Name
+  checked : List Name
+  keys : List Key
+  flushed : Bool
+deriving DecidableEq
+
+def Out.route (o : Out) : Route := ⟨o.status, o.db, o.checked, o.keys, o.flushed⟩
+
+mutual
+  /-- the payload skeleton: every column / tag / field NAME (hence every cell) erased -/
+  def eraseI : Item → Item
+    | .col m _ => .col m []
+    | .row m _ _ => .row m [] []
+    | .bad => .bad
+    | .junk => .junk
+    | .batch is => .batch (eraseIs is)
+  def eraseIs : Items → Items
+    | .nil => .nil
+    | .cons i is => .cons (eraseI i) (eraseIs is)
+end
+
+def eraseTop : Top → Top
+  | .empty => .empty
+  | .scalar => .scalar
+  | .map i => .map (eraseI i)
+  | .arr is => .arr (eraseIs is)
+
+mutual
+  theorem extractI_erase : ∀ i, extractI (eraseI i) = extractI i
+    | .col _ _ => rfl
+    | .row _ _ _ => rfl
+    | .bad => rfl
+    | .junk => rfl
+    | .batch is => by simp only [eraseI, extractI]; exact extractIs_erase is
+  theorem extractIs_erase : ∀ is, extractIs (eraseIs is) = extractIs is
+    | .nil => rfl
+    | .cons i is => by simp only [eraseIs, extractIs, extractI_erase i, extractIs_erase is]
+end
+
+theorem writeTop_erase : ∀ (is : Items) (p q : List (Name × List Name)), p.map (·.1) = q.map (·.1) →
+    ((writeTop (eraseIs is) p).1.map (·.1) = (writeTop is q).1.map (·.1)) ∧
+      (writeTop (eraseIs is) p).2 = (writeTop is q).2
+  | .nil, p, q, h => by simp [eraseIs, writeTop, h, Function.comp_def]
+  | .cons (.col m cols) is, p, q, h => by
+    have ih := writeTop_erase is p q h
+    simp [eraseIs, eraseI, writeTop, ih.1, ih.2]
+  | .cons (.row m t f) is, p, q, h => by
+    have ih := writeTop_erase is (p ++ [(mname m, [] ++ [])]) (q ++ [(mname m, t ++ f)]) (by simp [h])
+    simpa [eraseIs, eraseI, writeTop] using ih
+  | .cons .bad is, p, q, h => by simpa [eraseIs, eraseI, writeTop] using writeTop_erase is p q h
+  | .cons .junk is, p, q, h => by simpa [eraseIs, eraseI, writeTop] using writeTop_erase is p q h
+  | .cons (.batch b) is, p, q, h => by simp [eraseIs, eraseI, writeTop]
+
+theorem decodeTop_erase (top : Top) : decodeTop (eraseTop top) = (decodeTop top).map eraseIs := by
+  cases top with
+  | empty => rfl
+  | scalar => rfl
+  | arr is => rfl
+  | map i => cases i <;> rfl
+
+/-- C32_payload_inert (msgpack): status, database, permission-checked set, buffer keys depend on the payload only
+through its skeleton — no column, tag or field (whatever its NAME: database, _database, measurement,
+_measurement, m, …, and whatever its value) takes part in routing. -/
+theorem C32_payload_inert_msgpack (c : Cfg) (hdr : Name) (top : Top) :
+    (mpHandle c hdr (eraseTop top)).route = (mpHandle c hdr top).route := by
+  unfold mpHandle
+  rw [decodeTop_erase]
+  cases hd : decodeTop top with
+  | none => rfl
+  | some recs =>
+    simp only [Option.map_some, extractIs_erase]
+    generalize (if hdr = [] then defaultDB else hdr) = db
+    by_cases h1 : validDB db = true
+    · by_cases h2 : (dedupe (extractIs recs)).all validMeas = true
+      · by_cases h3 : (c.active && !(dedupe (extractIs recs)).all (c.allow db)) = true
+        · simp [h1, h2, h3, Out.route]
+        · have hw := writeTop_erase recs [] [] rfl
+          simp only [h1, h2, h3, Bool.not_true, Bool.false_eq_true, if_false, Out.route, hw.2]
+          have : List.map (fun t : Name × List (List Name) => (⟨db, t.1⟩ : Key)) (writeTop (eraseIs recs) []).1 =
+              List.map (fun t : Name × List (List Name) => (⟨db, t.1⟩ : Key)) (writeTop recs []).1 := by
+            have := congrArg (List.map (fun m => (⟨db, m⟩ : Key))) hw.1
+            simpa [List.map_map, Function.comp_def] using this
+          rw [this]
+      · simp [h1, h2, reject, Out.route]
+    · simp [h1, reject, Out.route]
+
+/-- two msgpack payloads with the same skeleton are routed identically -/
+theorem C32_payload_inert (c : Cfg) (hdr : Name) (t1 t2 : Top) (h : eraseTop t1 = eraseTop t2) :
+    (mpHandle c hdr t1).route = (mpHandle c hdr t2).route := by
+  rw [← C32_payload_inert_msgpack c hdr t1, ← C32_payload_inert_msgpack c hdr t2, h]
+
+example : eraseTop (.map (.col (.s wCpu) [kTime, kDb, kUDb, kMeas, kUMeas, kM])) = eraseTop (.map (.col (.s wCpu) [kTime])) := rfl
+
+/-- line protocol: the parsed records' tag/field names never reach the routing decision — only the measurement
+of each point and whether it has any field at all -/
+def pointSkel : Point → Point
+  | .p m _ f => .p m [] (if f = [] then [] else [[]])
+  | .junk => .junk
+
+theorem parsePoints_skel : ∀ pts : List Point,
+    (parsePoints (pts.map pointSkel)).map (·.1) = (parsePoints pts).map (·.1)
+  | [] => rfl
+  | .junk :: ps => by simpa [pointSkel, parsePoints] using parsePoints_skel ps
+  | .p m t f :: ps => by
+    have ih := parsePoints_skel ps
+    by_cases hm : m = [] <;> by_cases hf : f = [] <;> simp [pointSkel, parsePoints, hm, hf, ih]
+
+/-- the single-target endpoints (CSV / Parquet / TLE): the file's column names are not an argument of the routing -/
+theorem C32_payload_inert_single (c : Cfg) (ep : OneEp) (hdr qdb mp : Name) (fok : Bool) (cols1 cols2 : List Name) :
+    (oneHandle c ep hdr qdb mp fok cols1).route = (oneHandle c ep hdr qdb mp fok cols2).route := by
+  unfold oneHandle importOne
+  by_cases he : (decide (ep = OneEp.csv) || decide (ep = OneEp.parquet)) = true
+  · simp only [he, if_true]
+    by_cases hf : fok = true <;> simp [hf, Out.route]
+  · simp only [he, Bool.false_eq_true, if_false]
+    cases oneDb ep hdr qdb with
+    | none => rfl
+    | some db =>
+      simp only []
+      generalize (if mp = [] then satelliteTle else mp) = m
+      by_cases h1 : validDB db = true <;> by_cases h2 : validMeas m = true <;> by_cases h3 : fok = true <;>
+        by_cases h4 : (c.active && !c.allow db m) = true <;> simp [h1, h2, h3, h4, reject, Out.route]
+theorem filter_fst_congr (q : Name) : ∀ (l1 l2 : List (Name × List Name)), l1.map (·.1) = l2.map (·.1) →
+    (l1.filter (·.1 = q)).map (·.1) = (l2.filter (·.1 = q)).map (·.1)
+  | [], [], _ => rfl
+  | [], _ :: _, h => by simp at h
+  | _ :: _, [], h => by simp at h
+  | a :: l1, b :: l2, h => by
+    simp only [List.map_cons, List.cons.injEq] at h
+    have ih := filter_fst_congr q l1 l2 h.2
+    by_cases ha : a.1 = q
+    · have hb : b.1 = q := h.1 ▸ ha
+      simp [ha, hb, ih]
+    · have hb : ¬ b.1 = q := h.1 ▸ ha
+      simp [ha, hb, ih]
+
+theorem lpCore_route_congr (c : Cfg) (db : Name) (fl : Bool) (r1 r2 : List (Name × List Name))
+    (h : r1.map (·.1) = r2.map (·.1)) : (lpCore c db fl r1).route = (lpCore c db fl r2).route := by
+  have he : (r1 = []) ↔ (r2 = []) := by
+    constructor
+    · intro h1; subst h1; simpa using h.symm
+    · intro h2; subst h2; simpa using h
+  unfold lpCore
+  rw [h]
+  by_cases h0 : r2 = []
+  · simp [h0, he.2 h0, reject, Out.route]
+  · have h0' : ¬ r1 = [] := fun x => h0 (he.1 x)
+    generalize dedupe (r2.map (·.1)) = ms
+    by_cases h1 : (c.active && !ms.all (c.allow db)) = true <;> by_cases h2 : ms.all validMeas = true <;>
+      simp [h0, h0', h1, h2, Out.route]
+
+/-- C32_payload_inert (line protocol, every endpoint and the LP import): tag and field names (and values) of
+the points are not an input of the routing -/
+theorem C32_payload_inert_lineprotocol (c : Cfg) (ep : LpEp) (hdr qdb qb qm : Name) (pts : List Point) :
+    (lpHandle c ep hdr qdb qb qm (pts.map pointSkel)).route = (lpHandle c ep hdr qdb qb qm pts).route := by
+  have hp := parsePoints_skel pts
+  have he : (parsePoints (pts.map pointSkel) = []) ↔ (parsePoints pts = []) := by
+    constructor
+    · intro h1; rw [h1] at hp; simpa using hp.symm
+    · intro h2; rw [h2] at hp; simpa using hp
+  unfold lpHandle
+  cases lpDb ep hdr qdb qb with
+  | none => rfl
+  | some db =>
+    simp only []
+    by_cases h1 : validDB db = true
+    · by_cases h2 : (decide (ep = LpEp.imp) && decide (qm ≠ []) && !validMeas qm) = true
+      · simp only [h1, h2, Bool.not_true, Bool.false_eq_true, if_true, if_false]
+      · by_cases h3 : parsePoints pts = []
+        · simp only [h1, h2, h3, he.2 h3, Bool.not_true, Bool.false_eq_true, if_true, if_false]
+        · have h3' : ¬ parsePoints (pts.map pointSkel) = [] := fun x => h3 (he.1 x)
+          simp only [h1, h2, h3, h3', Bool.not_true, Bool.false_eq_true, if_false]
+          apply lpCore_route_congr
+          by_cases h4 : (decide (ep = LpEp.imp) && decide (qm ≠ [])) = true
+          · simp only [h4, if_true]
+            exact filter_fst_congr qm _ _ hp
+          · simp only [h4, Bool.false_eq_true, if_false]
+            exact hp
+    · simp only [h1, Bool.not_false, if_true]
+
+example : pointSkel (.p wCpu [kDb, kUMeas] [kM, [118]]) = pointSkel (.p wCpu [] [[118]]) := rfl
 end Arc.C32
